@@ -61,8 +61,11 @@ EXAMPLES: Dict[str, List[Dict[str, Any]]] = {
     "chuk_mcp.protocol.messages.initialize.send_messages:InitializeParams": [
         {"protocolVersion": "2025-06-18", "capabilities": CLIENT_CAPS,
          "clientInfo": {"name": "ExampleClient", "title": "Example Client Display Name", "version": "1.0.0"}}],
-    "chuk_mcp.protocol.messages.tools.tool:Tool": [TOOL, TOOL_MIN],
-    "chuk_mcp.protocol.types.tools:Tool": [TOOL, TOOL_MIN],
+    "chuk_mcp.protocol.messages.tools.tool_input_schema:ToolInputSchema": [TOOL["inputSchema"], {"type": "object"},
+                                                                            {"type": "object", "properties": {}, "additionalProperties": False}],
+    "chuk_mcp.protocol.types.tools:ToolInputSchema": [TOOL["inputSchema"], {"type": "object"}],
+    "chuk_mcp.protocol.messages.tools.tool:Tool": [TOOL, TOOL_MIN, {"name": "no_args", "inputSchema": {"type": "object"}}],
+    "chuk_mcp.protocol.types.tools:Tool": [TOOL, TOOL_MIN, {"name": "no_args", "inputSchema": {"type": "object"}}],
     "chuk_mcp.protocol.messages.tools.send_messages:ListToolsResult": [{"tools": [TOOL, TOOL_MIN], "nextCursor": "next-page-cursor"},
                                                                         {"tools": []}],
     "chuk_mcp.protocol.messages.tools.tool_result:ToolResult": CALL_RESULTS,
